@@ -27,6 +27,16 @@ impl<T: PartialEq> PartialEqSpecImpl for VecArray<T> {
     open spec fn eq_spec(&self, other: &Self) -> bool { PartialEqSpec::eq_spec(&self.0, &other.0) }
 }
 
+/// `==` on index arrays is equality of views
+pub proof fn lemma_vecarray_usize_eq()
+    ensures forall|a: VecArray<usize>, b: VecArray<usize>| #[trigger] PartialEqSpec::eq_spec(&a, &b) <==> a@ =~= b@,
+        <VecArray<usize> as PartialEqSpec>::obeys_eq_spec(),
+{
+    assert forall|a: VecArray<usize>, b: VecArray<usize>| #[trigger] PartialEqSpec::eq_spec(&a, &b) <==> a@ =~= b@ by {
+        assert(a.0@ == a@ && b.0@ == b@);
+    }
+}
+
 /// `==` on the label type is structural equality
 pub open spec fn lawful_eq<T: PartialEq>() -> bool {
     &&& T::obeys_eq_spec()
@@ -204,14 +214,14 @@ opimpl(VA, 'Add', 'usize', 'add_scalar', 'n', 'usize', "&'b VecArray<usize>", 'V
 
 opimpl(VA, 'Add', 'VecArray', 'array_add', 'a', 'VecArray<usize>', 'VecArray<usize>', 'VecArray<usize>',
        req=['a@.len() == rhs@.len()', 'forall|i: int| 0 <= i < a@.len() ==> a@[i] + rhs@[i] <= usize::MAX'],
-       ens=['r@.len() == a@.len()', 'forall|i: int| 0 <= i < a@.len() ==> r@[i] == a@[i] + rhs@[i]'],
+       ens=['r@.len() == a@.len()', 'forall|i: int| #![trigger r@[i]] #![trigger a@[i]] #![trigger rhs@[i]] 0 <= i < a@.len() ==> r@[i] == a@[i] + rhs@[i]'],
        labels=['C07.add-len', 'C07.add'], props=['C07'], rules={'subst': {'T': 'usize'}},
        closures={1: {'header': '|xy: (&usize, &usize)| -> (z: usize)', 'spec': 'requires *xy.0 + *xy.1 <= usize::MAX, ensures z == *xy.0 + *xy.1,',
                      'destructure': 'xy'}})
 
 opimpl(VA, 'Sub', 'VecArray', 'array_sub', 'a', 'VecArray<usize>', 'VecArray<usize>', 'VecArray<usize>',
        req=['a@.len() == rhs@.len()', 'forall|i: int| 0 <= i < a@.len() ==> a@[i] >= rhs@[i]'],
-       ens=['r@.len() == a@.len()', 'forall|i: int| 0 <= i < a@.len() ==> r@[i] == a@[i] - rhs@[i]'],
+       ens=['r@.len() == a@.len()', 'forall|i: int| #![trigger r@[i]] #![trigger a@[i]] #![trigger rhs@[i]] 0 <= i < a@.len() ==> r@[i] == a@[i] - rhs@[i]'],
        labels=['C07.sub-len', 'C07.sub'], props=['C07'], rules={'subst': {'T': 'usize'}},
        closures={1: {'header': '|xy: (&usize, &usize)| -> (z: usize)', 'spec': 'requires *xy.0 >= *xy.1, ensures z == *xy.0 - *xy.1,',
                      'destructure': 'xy'}})
